@@ -646,7 +646,17 @@ func ruleRequesterWaits(c *Ctx) {
 		c.Hold(rule, s.Name, "every-exit-flushed-or-waited", c.P.Pos(s.Body.Pos()), "every exit passes a direct FlushToWAL or a receive on a channel handed to the WAL goroutine")
 	}
 	for _, h := range r.Hits {
-		c.Violate(rule, s.Name, "exit-without-flush:"+s.guardDesc(h.Node), h.Pos,
+		// named by the last decision on the path to the exit (the same for an if-chain with
+		// early returns and for a switch whose case falls through to the end of the function)
+		guard := s.guardDesc(h.Node)
+		if h.LastCond != nil {
+			if h.LastVal {
+				guard = "if[" + canonExpr(s.Info, h.LastCond) + "]"
+			} else {
+				guard = "else[" + canonExpr(s.Info, h.LastCond) + "]"
+			}
+		}
+		c.Violate(rule, s.Name, "exit-without-flush:"+guard, h.Pos,
 			"RequestFlush returns without having flushed or waited for the WAL goroutine: the caller is acknowledged while its commands may still be queued", h.Path)
 	}
 	// the handed-over channel must be sent before it is waited on
